@@ -734,3 +734,11 @@ func replay(t *testing.T, c *Check, path string) {
 	}
 	fmt.Printf("REPLAY-NOT-REPRODUCED expected=%s\n", rf.Expect.Class())
 }
+
+// clusterPrefix: the plan's RedisPeerManagement.ClusterName ("" in most plans).
+func clusterPrefix(p *Plan) string {
+	if p.Get("cluster_name", 0) == 1 {
+		return "prod"
+	}
+	return ""
+}
